@@ -192,7 +192,10 @@ class Interp:
             # Point { x, y: py, .. }
             for fl in p.get("fields", []):
                 nm = fl["name"]
-                if isinstance(val, dict) and val.get("v") == "struct" and nm in val["fields"]:
+                if isinstance(val, dict) and val.get("v") == "self":
+                    # `let Self { a, b, .. } = self;`: the fields themselves
+                    fv = self._field_value(st.env.get("__selfprefix", "") + nm, st)
+                elif isinstance(val, dict) and val.get("v") == "struct" and nm in val["fields"]:
                     fv = val["fields"][nm]
                 elif isinstance(val, dict) and val.get("v") == "tuple" and nm.isdigit() and int(nm) < len(val["xs"]):
                     fv = val["xs"][int(nm)]
@@ -923,7 +926,38 @@ class Interp:
         return [(s1, S(parts)) for s1, parts in outs]
 
     def ev_index(self, e, st):
-        return [(st, H("opaque", src(e)))]
+        """`TABLE[i]` on a table whose rows are known (a const array, an array literal): the row is selected by the index;
+        an index computed from a condition (`usize::from(flag)`, `flag as usize`) splits the path on that condition."""
+        out = []
+        for s1, base in self.ev(e["e"], st):
+            if not (isinstance(base, dict) and base.get("v") == "list" and not base.get("open") and not base.get("field")):
+                out.append((s1, H("opaque", src(e))))
+                continue
+            for s2, iv in self.ev(e["idx"], s1):
+                cond = None
+                if isinstance(iv, dict) and iv.get("v") == "int":
+                    n = iv["n"]
+                    out.append((s2, base["items"][n]) if 0 <= n < len(base["items"]) else (s2, H("opaque", src(e))))
+                    continue
+                if isinstance(iv, dict) and iv.get("v") == "hole" and iv.get("kind") == "call" and str(iv.get("callee")).split("::")[-1] == "from" and str(iv.get("callee")).split("::")[0] in ("usize", "u8", "u32", "u64") and len(iv.get("args") or []) == 1:
+                    cond = iv["args"][0]
+                elif isinstance(iv, dict) and iv.get("v") == "hole" and iv.get("kind") == "cast" and len(iv.get("operands") or []) == 1:
+                    cond = iv["operands"][0]
+                if cond is None or len(base["items"]) != 2:
+                    out.append((s2, H("opaque", src(e))))
+                    continue
+                if isinstance(cond, dict) and cond.get("v") == "bool":
+                    out.append((s2, base["items"][1 if cond["b"] else 0]))
+                    continue
+                for val in (False, True):
+                    prior = [c0[1] for c0 in s2.conds if c0[0] == canon(cond) and isinstance(c0[1], bool)]
+                    if prior and prior[-1] != val:
+                        continue
+                    a = s2.fork()
+                    if not prior:
+                        a.conds = a.conds + ((canon(cond), val),)
+                    out.append((a, base["items"][1 if val else 0]))
+        return out
 
     def ev_paren(self, e, st):
         return self.ev(e["e"], st)
